@@ -582,6 +582,12 @@ def extract_fn(src, msk, fs, log):
         ins.append((body_open + 1, "\n        let ghost %s: bool = %s;" % (nm, "true" if val else "false")))
         rlog.append("%s: syntactic flag %s = %s (does the function text match /%s/)" % (fs.name, nm, val, dict(fs.flags)[nm]))
     lps = L.loops(msk2, body_open, body_close)
+    if not fs.external_body:
+        unann = [k for k in range(1, len(lps) + 1) if k not in fs.loops]
+        if unann:
+            # every loop of every function under contract carries an invariant block; a loop without one is new (or the
+            # loops were renumbered): Verus could only fail on it for lack of an invariant, which says nothing about the code
+            raise AnchorLost("%s: loop(s) %s have no invariant block in the contract (new or renumbered loop)" % (fs.name, unann))
     for n, inv in fs.loops.items():
         if n > len(lps) and n in fs.opt_loops:
             rlog.append("%s: loop %d is gone, its invariant block is not used" % (fs.name, n))
